@@ -137,6 +137,15 @@ func VerifyBlockHash(
 				"transaction hash (%v) at index: %v does not match receipt's hash (%v)",
 				tx.Hash().String(), i, b.Receipts[i].TransactionHash)
 		}
+		// The first calldata element of an L1 handler transaction is the L1 sender address;
+		// L1HandlerTransaction.MessageHash (message-hash index written by Store, deleted by
+		// RevertHead, served by the RPC) indexes it unconditionally. Its transaction hash does
+		// not depend on the calldata being non-empty, so a self-consistent block can carry one.
+		if l1Handler, ok := tx.(*L1HandlerTransaction); ok && len(l1Handler.CallData) == 0 {
+			return nil, fmt.Errorf(
+				"malformed block %d: l1 handler transaction (%v) at index: %v has no calldata",
+				b.Number, tx.Hash().String(), i)
+		}
 	}
 
 	metaInfo := network.BlockHashMetaInfo
